@@ -386,6 +386,30 @@ def run(prog, rep):
                 rep.ob("C11.5", fin, "padding", okp, "padding length is (left < %d) ? %d - left : %d - left: the padded message ends %d bytes before a block boundary" % (A, A, B, lenfield)
                        if okp else "padding constants %s do not satisfy pad = (block - %d - left) mod block (expected %d / %d)" % (sorted(map(str, pads)), lenfield, A, B), fin.loc[0])
 
+        # C11.5 (continued) the message length in bits: low = len_low << 3, high = (len_high << 3) | (len_low >> (W - 3))
+        if un in ("pcryptohash-md5.c", "pcryptohash-sha1.c", "pcryptohash-sha2-256.c", "pcryptohash-sha2-512.c"):
+            from plint import symx as _sx
+            p0 = fin.param_names()[0]
+            LL = ("m0", ("fld", ("p", p0), "len_low"))
+            LH = ("m0", ("fld", ("p", p0), "len_high"))
+            f_ll = rec.field("len_low")
+            W = f_ll["bits"] if f_ll else 0
+            want_low = _sx.norm(("bin", "<<", LL, _sx.C(3)))
+            want_high = _sx.norm(("bin", "|", ("bin", "<<", LH, _sx.C(3)), ("bin", ">>", LL, _sx.C(W - 3))))
+            sxe = _sx.SymExec(fin)
+            got = set()
+            for b, i, n in fin.nodes():
+                if n["k"] == "asg" and n["op"] == "=" and strip_casts(n["l"])["k"] == "ref":
+                    t = _sx.norm(sxe.ev(n["r"], _sx.State())[0][0])
+                    got.add(t)
+            okb = want_low in got and want_high in got and W in (32, 64)
+            rep.ob("C11.5", fin, "bitlength", okb, "bit length words: low = len_low << 3, high = (len_high << 3) | (len_low >> %d)" % (W - 3) if okb else
+                   "the %d-bit bit-length words are not (len_low << 3) and ((len_high << 3) | (len_low >> %d)): messages of 2^%d bytes or more get a wrong length field" % (W, W - 3, W - 3), fin.loc[0])
+        if un == "pcryptohash-gost3411.c":
+            sh = sorted((n["op"], cv(n["r"])) for (b, i, n) in upf.nodes() if n["k"] == "bin" and n["op"] in ("<<", ">>") and root_var(n["l"]) == lenp and cv(n["r"]) is not None)
+            okb = sh == [("<<", 3), (">>", 29)]
+            rep.ob("C11.5", upf, "bitlength", okb, "GOST length in bits: (len << 3) low word, (len >> 29) next word" if okb else "GOST bit-length shifts are %s, expected << 3 and >> 29" % sh, upf.loc[0])
+
         # C11.6 reset completeness
         def written(fn, seen=None):
             seen = seen if seen is not None else set()
@@ -465,7 +489,7 @@ def run(prog, rep):
             rep.ob("C11.7", fin, "pad-alias", ok7 and pairs > 0, "%d pair(s) of padding stores with possibly equal indices: the later one ORs its bits in" % pairs if (ok7 and pairs) else
                    (msg7 or "no padding store pair found"), fin.loc[0])
     rep.floor("C11.4", 6)
-    rep.floor("C11.5", 9)
+    rep.floor("C11.5", 14)
     rep.floor("C11.6", 6)
     rep.floor("C11.7", 1)
 
@@ -565,6 +589,10 @@ SELFTEST = [
          old="\twhile (len >= 64) {", new="\twhile (len >= 32) {"),
     dict(id="sha512-pad-112-to-120", file="src/pcryptohash-sha2-512.c", expect="C11.5",
          old="(left < 112) ? (112 - left) : (240 - left)", new="(left < 120) ? (120 - left) : (248 - left)"),
+    dict(id="md5-bitlength-carry-shift", file="src/pcryptohash-md5.c", expect="C11.5",
+         old="\t     | ctx->len_low >> 29;", new="\t     | ctx->len_low >> 28;"),
+    dict(id="sha512-bitlength-carry-shift", file="src/pcryptohash-sha2-512.c", expect="C11.5",
+         old="\t     | ctx->len_low >> 61;", new="\t     | ctx->len_low >> 29;"),
     dict(id="md5-reset-forgets-len-high", file="src/pcryptohash-md5.c", expect="C11.6",
          old="\tctx->len_low = 0;\n\tctx->len_high = 0;\n\n\tctx->hash[0] = 0x67452301;", new="\tctx->len_low = 0;\n\n\tctx->hash[0] = 0x67452301;"),
     dict(id="sha3-pad-plain-stores", file="src/pcryptohash-sha3.c", expect="C11.7",
